@@ -215,6 +215,35 @@ def header_faults(data, schema, rng, quick):
         out.append(("schema truncated to %d of %d bytes, length field adjusted" % (cut, slen), "schema_prefix", bytes(hdr) + sb[:cut] + data[hs + slen:]))
     hdr = bytearray(data[:9]); R.put_uvarint(hdr, slen + 1)
     out.append(("schema extended by one byte", "schema_extended", bytes(hdr) + sb + b" " + data[hs + slen:]))
+    # the schema of a *different* protocol that is still well-formed JSON: one token of the text replaced (a primitive type,
+    # a name), length field adjusted - what a comparison on anything but the whole text could let through
+    for what, new_schema in schema_token_variants(schema, rng, 2 if quick else 6):
+        nb_ = new_schema.encode()
+        hdr = bytearray(data[:9]); R.put_uvarint(hdr, len(nb_))
+        out.append((what, "schema_token_replaced", bytes(hdr) + nb_ + data[hs + slen:]))
+    return out
+
+
+TOKEN_SWAPS = [('"int32"', '"int64"'), ('"int64"', '"int32"'), ('"uint8"', '"int8"'), ('"float32"', '"float64"'), ('"float64"', '"float32"'), ('"string"', '"int32"'),
+               ('"uint16"', '"uint32"'), ('"bool"', '"uint8"'), ('"uint64"', '"int64"'), ('"int16"', '"uint16"')]
+
+
+def schema_token_variants(schema, rng, n):
+    """[(description, schema text)]: well-formed variants of the schema that describe another protocol."""
+    import re
+    out = []
+    swaps = [(a, b) for a, b in TOKEN_SWAPS if a in schema]
+    rng.shuffle(swaps)
+    for a, b in swaps[:n]:
+        k = rng.randrange(schema.count(a))
+        pos = -1
+        for _ in range(k + 1):
+            pos = schema.index(a, pos + 1)
+        out.append(("schema with %s replaced by %s at offset %d" % (a, b, pos), schema[:pos] + b + schema[pos + len(a):]))
+    names = re.findall(r'"name":"(\w+)"', schema)
+    if names:
+        nm = rng.choice(names)
+        out.append(('schema with the name "%s" changed' % nm, schema.replace('"name":"%s"' % nm, '"name":"%sX"' % nm, 1)))
     return out
 
 
@@ -322,6 +351,17 @@ def run_twin(task, rng, pkg_b, edit, a_streams, want_cpp, ybin, root, quick, sta
                 jobs.append(("flip bit %d of NDJSON header byte %d" % (bit, pos), "flip_ndjson_header", "ndjson", bytes(m)))
             if not only_misdelivery:
                 jobs.append(("NDJSON header with version 2", "ndjson_version", "ndjson", raw.replace(b'"version":1', b'"version":2', 1)))
+                body = raw[nl:]
+                hj = json.loads(raw[:nl].decode("utf-8"))
+                variants = [("NDJSON header without the version", {"yardl": {"schema": hj["yardl"]["schema"]}}),
+                            ("NDJSON header without the schema", {"yardl": {"version": hj["yardl"]["version"]}}),
+                            ("NDJSON header with a null schema", {"yardl": {"version": hj["yardl"]["version"], "schema": None}}),
+                            ("NDJSON header under another key", {"yardlx": hj["yardl"]}),
+                            ("NDJSON header that is an empty object", {})]
+                for what_, new_schema in schema_token_variants(schema, rr, 2 if quick else 6):
+                    variants.append(("NDJSON header: " + what_, {"yardl": {"version": hj["yardl"]["version"], "schema": json.loads(new_schema)}}))
+                for what_, hv in variants:
+                    jobs.append((what_, "ndjson_header_structure", "ndjson", json.dumps(hv, separators=(",", ":")).encode("utf-8") + body))
             for what, cls, fmt, payload in jobs:
                 stats["runs"] += 1
                 stats[cls] = stats.get(cls, 0) + 1
@@ -564,7 +604,7 @@ def main():
                assumptions=["a corruption after which the header is still the reader's own header by the documented format (NDJSON line parsing to the same JSON) is benign and skipped"],
                replay_fn=replay_doc, quick_budget=140,
                fault_keys=("misdelivery_near_identical", "misdelivery_unrelated", "misdelivery_sibling_protocol", "flip_magic", "flip_version", "flip_schema_length", "subst_magic", "subst_version",
-                           "subst_schema_length", "flip_schema_text", "schema_prefix", "schema_extended", "flip_ndjson_header", "ndjson_version",
+                           "subst_schema_length", "flip_schema_text", "schema_prefix", "schema_extended", "schema_token_replaced", "flip_ndjson_header", "ndjson_version", "ndjson_header_structure",
                            "cpp_misdelivery_near_previous_version", "cpp_flip_previous_schema_text", "python_previous_version"))
 
 
